@@ -1,5 +1,246 @@
+"""C19 - summaries and plots encode the data faithfully."""
 from .. import AnalysisBroken
+from ..nnabs import fold
+from ..rules import Equiv, canon_binders, canon_params, check_equiv, close_loops, compare_function, std_rewrites, where_of
+from ..terms import FALSE, NONE, TRUE, const, get_arg, head, is_const, show, strip, strip_all, subst, walk
+
+CLAIMED = True
+LEVEL = "other"
+TECHNIQUE = "loop-closed value-provenance comparison with a specification of what data each function hands to the regex / drawing layer (canonical call forms, rational-function leaves)"
+TEXT = ("Decides only what pyrepseq hands to the regex / drawing layer (grade C): per row of logomaker's count matrix the regex class holds the labels with "
+        "count > 0, is bracketed iff more than one, gets '?' iff the row sum differs from the number of sequences, rows concatenated in order; the consensus "
+        "takes idxmax per row and skips rows with more than n//2 gaps; seqlogos returns the unmodified count matrix that it also draws; rankfrequency "
+        "draws reverse(sort(d))*scalex against scaley*arange(size)/norm with d the non-NaN data divided by its sum iff normalize_x and norm = size iff "
+        "normalize_y; the two colour functions keep labels with count >= min_count, size the hls palette by the number of kept labels and look colours "
+        "up by label with a black fallback; density_scatter in discrete mode takes points and counts from one np.unique(axis=0, return_counts=True) over "
+        "the zipped pairs, x = column 0, y = column 1, colour = counts, one permutation applied to all three; similarity_clustermap clusters the sum "
+        "of the alpha and beta condensed vectors, returns that linkage and its fcluster, and passes square(alpha) below / square(beta) above with the "
+        "shared linkage for rows and columns; ClusterGridSplit stores lower / upper in the matching attributes and draws tril(lower[yind, xind]) + "
+        "triu(upper[yind, xind]). What matplotlib / seaborn / logomaker do with these data is not decided.")
+NOTE = "Trusted: logomaker.alignment_to_matrix counts residues per position; numpy sort / unique / tril / triu; seaborn ClusterGrid calls plot_matrix with the dendrogram orders. Not decided: rendering; regex metacharacters in labels."
+
+U = "pyrepseq.util."
+PL = "pyrepseq.plotting."
+SPEC = '''
+def seqs_to_regex(seqs, align=True):
+    if align:
+        seqs = align_seqs(seqs)
+    matrix = lm.alignment_to_matrix(seqs)
+    n = len(seqs)
+    regex = ""
+    for i, row in matrix.iterrows():
+        s = "".join(row[row > 0].index)
+        if len(s) > 1:
+            regex += f"[{s}]"
+        else:
+            regex += s
+        if row.sum() != n:
+            regex += "?"
+    return regex
+
+def seqs_to_consensus(seqs, align=True):
+    if align:
+        seqs = align_seqs(seqs)
+    matrix = lm.alignment_to_matrix(seqs)
+    n = len(seqs)
+    s = ""
+    for i, row in matrix.iterrows():
+        if n - row.sum() > n // 2:
+            continue
+        s += row.idxmax()
+    return s
+
+def rankfrequency(data, ax=None, normalize_x=True, normalize_y=False, transform_x=None, transform_y=None, log_x=True, log_y=True, scalex=1.0, scaley=1.0, **kwargs):
+    if ax is None:
+        ax = plt.gca()
+    d = np.asarray(data)
+    d = d[~np.isnan(d)]
+    if normalize_x:
+        d = d / np.sum(d)
+    sd = np.sort(d)
+    if normalize_y:
+        norm = sd.size
+    else:
+        norm = 1
+    if transform_x is None:
+        transform_x = lambda x: x
+    if transform_y is None:
+        transform_y = lambda x: x
+    return ax.step(transform_x(sd[::-1] * scalex), transform_y(scaley * np.arange(sd.size) / norm), **kwargs)
+
+def labels_to_colors_hls(labels, palette_kws=dict(l=0.5, s=0.8), min_count=None):
+    label, count = np.unique(labels, return_counts=True)
+    if min_count is not None:
+        label = label[count >= min_count]
+    np.random.shuffle(label)
+    lut = dict(zip(label, sns.hls_palette(len(label), **palette_kws)))
+    return [lut[n] if n in lut else [0, 0, 0] for n in labels]
+
+def labels_to_colors_tableau(labels, min_count=None):
+    label, count = np.unique(labels, return_counts=True)
+    if min_count is not None:
+        label = label[count >= min_count]
+    np.random.shuffle(label)
+    c = list(plt.cm.tab20.colors[::2])
+    c.extend(plt.cm.tab20.colors[1::2])
+    lut = dict(zip(label, plt.cycler(c=c)()))
+    return [lut[n]["c"] if n in lut else [0, 0, 0] for n in labels]
+
+def scatter_discrete(x, y, sort):
+    points, counts = np.unique(np.array(list(zip(x, y))), return_counts=True, axis=0)
+    px = points[:, 0]
+    py = points[:, 1]
+    if sort:
+        idx = counts.argsort()
+        return px[idx], py[idx], counts[idx]
+    return px, py, counts
+
+def seqlogos_matrix(seqs):
+    lengths = np.array([len(s) for s in seqs])
+    if len(np.unique(lengths)) > 1:
+        seqs = align_seqs(seqs)
+    return lm.alignment_to_matrix(seqs)
+
+def clustermap_data(df, alpha_column, beta_column, linkage_kws, cluster_kws):
+    metric = Levenshtein()
+    if (alpha_column is None) or (beta_column is None):
+        if alpha_column is None:
+            chain = beta_column
+        else:
+            chain = alpha_column
+        da = metric.calc_pdist_vector(df[chain])
+        db = da
+        distances = da
+    else:
+        da = metric.calc_pdist_vector(df[alpha_column])
+        db = metric.calc_pdist_vector(df[beta_column])
+        distances = da + db
+    linkage = hc.linkage(distances, **linkage_kws)
+    cluster = hc.fcluster(linkage, **cluster_kws)
+    return pd.DataFrame(squareform(da)), pd.DataFrame(squareform(db)), linkage, linkage, linkage, cluster
+
+def plot_matrix_data(self, xind, yind):
+    return np.tril(self.data_lower.iloc[yind, xind]) + np.triu(self.data_upper.iloc[yind, xind])
+'''
 
 
 def run(r):
-    raise AnalysisBroken("rule set for C19 not implemented yet (fail-closed stub)")
+    rep = r.rep
+    rep.explanation = "The data arguments that each summary / plotting function passes on were extracted from the current source and compared with the specification."
+    rep.trust("logomaker.alignment_to_matrix(seqs): rows = positions, columns = residues, entries = counts", "numpy.unique(a, axis=0, return_counts=True) -> (distinct rows, multiplicities)",
+              "seaborn ClusterGrid.plot calls plot_matrix(colorbar_kws, xind, yind) with the dendrogram leaf orders")
+    eq = Equiv(rewrites=std_rewrites(ident=("numpy.asarray",)) + [canon_binders], modelled={"logomaker.alignment_to_matrix", "numpy.sort", "numpy.arange", "numpy.isnan", "numpy.unique", "seaborn.hls_palette",
+                                                                                            "matplotlib.pyplot.cycler", "matplotlib.pyplot.gca", "numpy.random.shuffle", "builtins.zip", "builtins.dict"})
+    compare_function(r, "C19-RGX", U + "seqs_to_regex", SPEC, "regex: per position the residues with count > 0, bracketed iff several, '?' iff some sequence has a gap there, in row order", eq=eq, key="regex")
+    compare_function(r, "C19-CONS", U + "seqs_to_consensus", SPEC, "consensus: a most frequent residue per position, positions with more than n//2 gaps skipped", eq=eq, key="consensus")
+    compare_function(r, "C19-RANK", PL + "rankfrequency", SPEC, "rankfrequency draws reverse(sort(non-NaN data [/ sum]))*scalex against scaley*arange(size)/norm", eq=eq, key="rank frequency")
+    compare_function(r, "C19-LUT", PL + "labels_to_colors_hls", SPEC, "hls colours: labels with count >= min_count get distinct palette entries looked up by label, others black", eq=eq, key="hls lut")
+    compare_function(r, "C19-LUT", PL + "labels_to_colors_tableau", SPEC, "tableau colours: labels with count >= min_count get cycler colours looked up by label, others black", eq=eq, key="tableau lut")
+    # ---- density_scatter (discrete)
+    q = PL + "density_scatter"
+    s = r.A.summary(q)
+    rep.analysed(q)
+    sc = [e for e in s.events_of("call") if head(strip(strip(e["term"])[1])) == "attr" and strip(strip(e["term"])[1])[2] == "scatter"]
+    if len(sc) != 1:
+        raise AnalysisBroken(f"{q}: expected one scatter call, found {len(sc)}")
+    c = strip(sc[0]["term"])
+    pn = {p[0]: ("param", f"#{i}") for i, p in enumerate(s.params)}
+    cp = canon_params(s)
+    disc = {("param", "discrete"): TRUE}
+    got = ("tuple", (c[2][0], c[2][1], dict(c[3]).get("c", NONE)))
+    got = subst(fold(got, disc), cp)
+    sp = r.A.summarize_source(SPEC, "scatter_discrete", "pyrepseq.plotting")
+    spec_t = subst(sp.ret, {("param", "x"): cp[("param", "x")], ("param", "y"): cp[("param", "y")], ("param", "sort"): cp[("param", "sort")]})
+    check_equiv(rep, "C19-DENS", q, "discrete mode: each distinct (x, y) point once, coloured by its multiplicity; x = column 0, y = column 1; one permutation for all three", got, spec_t,
+                where_of(r.P, s.func, sc[0].node), eq=eq, key="discrete scatter")
+    # ---- seqlogos
+    q = PL + "seqlogos"
+    s = r.A.summary(q)
+    rep.analysed(q)
+    ret = strip(s.ret)
+    sp = r.A.summarize_source(SPEC, "seqlogos_matrix", "pyrepseq.plotting")
+    cp = canon_params(s)
+    if head(ret) != "tuple" or len(ret[1]) != 2:
+        raise AnalysisBroken(f"{q}: return value is not (axes, matrix)")
+    check_equiv(rep, "C19-LOGO", q, "the returned matrix is the unmodified count matrix of the (aligned if needed) sequences", subst(ret[1][1], cp), subst(sp.ret, {("param", "seqs"): cp[("param", s.params[0][0])]}),
+                where_of(r.P, s.func, s.func.node), eq=eq, key="logo matrix")
+    logo = s.calls("logomaker.Logo")
+    okl = len(logo) == 1 and strip_all(strip(logo[0]["term"])[2][0]) == strip_all(ret[1][1])
+    rep.ob("C19-LOGO", q, okl, "the matrix drawn by logomaker.Logo is the one returned", where_of(r.P, s.func, logo[0].node if logo else s.func.node), expected="lm.Logo(counts_mat, ...); return ax, counts_mat", found="same object" if okl else "different", key="logo drawn")
+    # ---- similarity_clustermap
+    q = PL + "similarity_clustermap"
+    s = r.A.summary(q)
+    rep.analysed(q)
+    ret = strip(s.ret)
+    if head(ret) != "tuple" or len(ret[1]) != 3:
+        raise AnalysisBroken(f"{q}: return value is not (grid, linkage, cluster)")
+    cm = strip(ret[1][0])
+    if not (head(cm) == "call" and strip(cm[1]) == ("glob", PL + "clustermap_split")):
+        raise AnalysisBroken(f"{q}: first returned value is not the clustermap_split result")
+    kw = dict(cm[3])
+    # keyword arguments may be hidden in the **clustermap_kws layer; the data keywords must be explicit
+    got = ("tuple", (cm[2][0] if cm[2] else NONE, cm[2][1] if len(cm[2]) > 1 else NONE, kw.get("row_linkage", NONE), kw.get("col_linkage", NONE), ret[1][1], ret[1][2]))
+    cp = canon_params(s)
+    sp = r.A.summarize_source(SPEC, "clustermap_data", "pyrepseq.plotting")
+    m = {("param", n): cp[("param", n)] for n in ("df", "alpha_column", "beta_column", "linkage_kws", "cluster_kws")}
+    eq2 = Equiv(vec=lambda t: head(strip(t)) == "call" and head(strip(strip(t)[1])) == "attr" and strip(strip(t)[1])[2] == "calc_pdist_vector",
+                rewrites=std_rewrites(ident=("numpy.asarray",)) + [canon_binders], modelled={"scipy.cluster.hierarchy.linkage", "scipy.cluster.hierarchy.fcluster", "scipy.spatial.distance.squareform", "pandas.DataFrame"})
+    check_equiv(rep, "C19-CMAP", q, "clusters come from linkage / fcluster of alpha + beta condensed distances; the map gets square(alpha) below, square(beta) above and the shared linkage for rows and columns",
+                subst(got, cp), subst(sp.ret, m), where_of(r.P, s.func, s.func.node), eq=eq2, key="clustermap data")
+    # ---- clustermap_split / ClusterGridSplit
+    q = PL + "clustermap_split"
+    s = r.A.summary(q)
+    rep.analysed(q)
+    ret = strip(s.ret)
+    okp = head(ret) == "call" and head(strip(ret[1])) == "attr" and strip(ret[1])[2] == "plot"
+    if okp:
+        ctor = strip(strip(ret[1])[1])
+        kw = dict(ret[3])
+        okp = head(ctor) == "call" and strip(ctor[1]) == ("glob", PL + "ClusterGridSplit") and tuple(strip(a) for a in ctor[2][:2]) == (("param", s.params[0][0]), ("param", s.params[1][0])) \
+            and strip(kw.get("row_linkage", NONE)) == ("param", "row_linkage") and strip(kw.get("col_linkage", NONE)) == ("param", "col_linkage")
+    rep.ob("C19-CMAP", q, okp, "clustermap_split builds ClusterGridSplit(lower, upper, ...) and plots it with the given row / column linkages", where_of(r.P, s.func, s.func.node),
+           expected="ClusterGridSplit(data_lower, data_upper, ...).plot(row_linkage=row_linkage, col_linkage=col_linkage, ...)", found=show(ret, 120), key="split plot")
+    q = PL + "ClusterGridSplit.__init__"
+    s = r.A.summary(q)
+    rep.analysed(q)
+    sa = {e["name"]: strip(e["value"]) for e in s.events_of("setattr")}
+    rep.ob("C19-CMAP", q, sa.get("data_lower") == ("param", s.params[1][0]) and sa.get("data_upper") == ("param", s.params[2][0]), "lower / upper data are stored in the matching attributes",
+           where_of(r.P, s.func, s.func.node), expected="self.data_lower = data_lower; self.data_upper = data_upper", found=str({k: show(v, 20) for k, v in sa.items()}), key="grid attrs")
+    q = PL + "ClusterGridSplit.plot_matrix"
+    s = r.A.summary(q)
+    rep.analysed(q)
+    d2 = s.env.get(("@attr", ("param", "self"), "data2d"))
+    sp = r.A.summarize_source(SPEC, "plot_matrix_data", "pyrepseq.plotting")
+    if d2 is None:
+        raise AnalysisBroken(f"{q}: self.data2d is never set")
+    eq3 = Equiv(vec=lambda t: head(strip(t)) == "call" and strip(strip(t)[1]) in (("glob", "numpy.tril"), ("glob", "numpy.triu")), rewrites=std_rewrites(), modelled={"numpy.tril", "numpy.triu"})
+    check_equiv(rep, "C19-CMAP", q, "the drawn matrix is tril(lower[yind, xind]) + triu(upper[yind, xind]) in dendrogram order", d2, sp.ret, where_of(r.P, s.func, s.func.node), eq=eq3, key="data2d")
+    hm = s.calls("seaborn.matrix.heatmap")
+    okh = len(hm) == 1 and strip_all(strip(hm[0]["term"])[2][0]) == strip_all(d2)
+    rep.ob("C19-CMAP", q, okh, "the heat map draws that matrix", where_of(r.P, s.func, hm[0].node if hm else s.func.node), expected="heatmap(self.data2d, ...)", found="same" if okh else "different", key="heatmap data")
+    for rule, fl in (("C19-RGX", 1), ("C19-CONS", 1), ("C19-RANK", 1), ("C19-LUT", 2), ("C19-DENS", 1), ("C19-LOGO", 2), ("C19-CMAP", 5)):
+        rep.floor(rule, fl)
+
+
+from ..selftest import V  # noqa: E402
+
+UT = "pyrepseq/util.py"
+PT = "pyrepseq/plotting.py"
+VARIANTS = [
+    V("tril-triu-swapped", PT, "self.data2d = np.tril(self.data_lower.iloc[yind, xind]) + np.triu(\n            self.data_upper.iloc[yind, xind]\n        )", "self.data2d = np.triu(self.data_lower.iloc[yind, xind]) + np.tril(\n            self.data_upper.iloc[yind, xind]\n        )", rule="C19-CMAP"),
+    V("alpha-beta-squares-swapped", PT, "        pd.DataFrame(squareform(distances_alpha)),\n        pd.DataFrame(squareform(distances_beta)),", "        pd.DataFrame(squareform(distances_beta)),\n        pd.DataFrame(squareform(distances_alpha)),", rule="C19-CMAP"),
+    V("min-count-strict", PT, "        label = label[count >= min_count]\n    np.random.shuffle(label)\n    lut = dict(zip(label, sns.hls_palette", "        label = label[count > min_count]\n    np.random.shuffle(label)\n    lut = dict(zip(label, sns.hls_palette", rule="C19-LUT"),
+    V("sorted-not-reversed", PT, "transform_x(sorted_data[::-1] * scalex)", "transform_x(sorted_data * scalex)", rule="C19-RANK"),
+    V("regex-bracket-threshold", UT, "        if len(s)>1:\n                regex += f'[{s}]'", "        if len(s)>2:\n                regex += f'[{s}]'", rule="C19-RGX"),
+    V("regex-includes-zero-counts", UT, "s = ''.join(row[row>0].index)", "s = ''.join(row[row>=0].index)", rule="C19-RGX"),
+    V("discrete-xy-swapped", PT, "        x = points[:, 0]\n        y = points[:, 1]", "        x = points[:, 1]\n        y = points[:, 0]", rule="C19-DENS"),
+    V("logo-returns-normalised", PT, "    return ax, counts_mat", "    return ax, counts_mat / counts_mat.sum(axis=1).values[:, None]", rule="C19-LOGO"),
+    V("consensus-gap-threshold", UT, "        if ngaps > n//2:", "        if ngaps >= n//2:", rule="C19-CONS"),
+    V("rank-norm-always-size", PT, "    if normalize_y:\n        norm = sorted_data.size\n    else:\n        norm = 1", "    norm = sorted_data.size", rule="C19-RANK"),
+    V("clusters-from-alpha-only", PT, "        distances = distances_alpha + distances_beta", "        distances = distances_alpha", rule="C19-CMAP"),
+    V("col-linkage-missing", PT, "        row_linkage=linkage,\n        col_linkage=linkage,", "        row_linkage=linkage,", rule="C19-CMAP"),
+    V("palette-too-small", PT, "sns.hls_palette(len(label), **palette_kws)", "sns.hls_palette(len(label) - 1, **palette_kws)", rule="C19-LUT"),
+    V("sort-permutes-colour-only", PT, "        x, y, z = x[idx], y[idx], z[idx]", "        x, y, z = x, y, z[idx]", rule="C19-DENS"),
+    V("question-mark-condition", UT, "        gaps = row.sum()!=n", "        gaps = row.sum()>n", rule="C19-RGX"),
+    V("silent-rename-local", PT, "    sorted_data = np.sort(data)\n", "    sorted_data = np.sort(data)  # ascending\n", expect="silent"),
+]
